@@ -491,9 +491,23 @@ fn fragment(rng: &mut Rng) -> (String, &'static str) {
         5 | 6 => (gram::expr(rng, 3).0, "expr"),
         7 => {
             let n = rng.below(4);
-            let kind = rng.below(5);
+            let kind = rng.below(7);
             let els: Vec<String> = (0..n)
                 .map(|_| match kind {
+                    // negative numbers in every spelling: all but the last element arrive as `-` applied
+                    // to a literal and must come out as they were written
+                    5 => match rng.below(5) {
+                        0 => format!("-0x{:x}", rng.below(4096)),
+                        1 => format!("-0o{:o}", rng.below(512)),
+                        2 => format!("-0b{:b}", rng.below(64)),
+                        3 => format!("-1_{:03}i64", rng.below(1000)),
+                        _ => format!("-{}", rng.below(300)),
+                    },
+                    6 => match rng.below(3) {
+                        0 => format!("-1_{}.5", rng.below(10)),
+                        1 => format!("-{}.25e3", rng.below(100)),
+                        _ => format!("-{}.5f32", rng.below(100)),
+                    },
                     0 => rng.below(300).to_string(),
                     1 => format!("\"s{}\"", rng.below(9)),
                     2 => gram::lit(rng),
